@@ -255,7 +255,7 @@ func runC08(x *X) {
 			})
 	})
 	wide := WideGrids()
-	x.Explore("wide", ExploreOpts{Bound: "4 tables of 10-13 columns x one hostile text / one alignment in each column position in turn"}, func(c *Chooser) {
+	x.Explore("wide", ExploreOpts{Bound: "1 table of 56 rows and 4 tables of 10-13 columns x one hostile text / one alignment in each column position in turn"}, func(c *Chooser) {
 		g0 := wide[c.Choose(len(wide))]
 		g := &Grid{HasHeader: g0.HasHeader, Header: append([]string{}, g0.Header...), HeaderLast: g0.HeaderLast}
 		for _, r := range g0.Rows {
